@@ -69,7 +69,7 @@ var (
 	vKeys     = []string{"k1", "k2"}
 	vTexts    = []string{"hi", "hello world", ":colon first", ""}
 	vAddrs    = []string{"a1", "a2", "a3"}
-	vPseudo   = []string{"NickServ", "ChanServ", "Bot", "bot", "B[ot]", "OperServ", "b{ot}"}
+	vPseudo   = []string{"NickServ", "ChanServ", "Bot", "bot", "B[ot]", "OperServ", "b{ot}", "b[ot]"}
 )
 
 // variant returns another spelling of the same name under IRC case mapping.
